@@ -84,15 +84,22 @@ class InjectedError(IOError):
     """Fault injected by the simulator (a remote I/O error)."""
 
 
-def build_sim_resource(world, prefix="sim://", chained=False):
+def build_sim_resource(world, prefix="sim://", chained=False, private=False):
     """Returns an instance of a RemoteResource subclass written the way a user would write one."""
     from ocean_science_utilities.filecache.remote_resources import RemoteResource, _RemoteResourceUriNotFound
 
     class SimResource(RemoteResource):
         URI_PREFIX = prefix
 
+        def valid_uri(self, uri):
+            if private:
+                return uri.startswith("sim://private/")  # same scheme as the public store, stricter claim
+            return uri.startswith(self.URI_PREFIX)
+
         def download(self):
             def _download(uri, filepath):
+                if private and not uri.startswith("sim://private/"):
+                    raise _RemoteResourceUriNotFound("the private store has no object %s" % uri)
                 if chained:
                     return world.chain_download(uri, filepath, _RemoteResourceUriNotFound)
                 return world.sim_download(uri, filepath, _RemoteResourceUriNotFound)
